@@ -48,7 +48,8 @@
 (*     -> no key, plain read_k -> unless @nopoll, no read method -> not polled;                  *)
 (*   - the first round calls every polled read method once: one hardware call per CR group;       *)
 (*     a slow round calls the polled read methods whose parameter was not refreshed earlier in   *)
-(*     the same round.                                                                            *)
+(*     the same round; a communication failure ends the first round (not a slow round);          *)
+(*   - a start-up write that fails is logged, nothing is retried, the poll round follows.        *)
 (*  isolation: requests on one module instance never touch another instance (same class or the   *)
 (*  base class).                                                                                  *)
 (*                                                                                                *)
@@ -95,7 +96,7 @@ VARIABLES lay,       \* the layout in force (NoLay before the first definition)
 
 vars == <<lay, phase, pending, st, last>>
 
-NoLay == [name |-> "", cls |-> "", base |-> <<>>, sub |-> <<>>, hassub |-> FALSE, cfg |-> <<>>, fix |-> ""]
+NoLay == [name |-> "", cls |-> "", base |-> <<>>, sub |-> <<>>, hassub |-> FALSE, cfg |-> <<>>, im |-> <<>>, fix |-> ""]
 
 (* ------------------------------------------------------------------ class creation *)
 (* executing a class body: every handler decoration registers (cls, body, fn); a name already registered is
@@ -162,13 +163,17 @@ PollFlag(L, c, k, D) ==
     CASE d.kind = "none" -> FALSE
       [] d.kind \in {"PR", "R"} -> d.np = "no"
       [] d.kind = "CR" -> d.np = "no" /\ (d.keys[1] = k \/ "X_PollAll" \in D)
+(* the handler objects are class attributes: Class.fn gives the handler with its keys *)
+HandlerKeys(L) == [fn \in {f \in Fns(L) : IsHandler(DeclByFn(L, f))} |-> Range(DeclByFn(L, fn).keys)]
 PollFlags(L) == [m \in Mods |-> [k \in ParamSet |-> PollFlag(L, ClassOf(m), k, {})]]
 
 (* ------------------------------------------------------------------ the machine of one module *)
 (* S = [cache, hw, mode, wd, calls, upd, touched]                                                 *)
 NewS(L) == [cache |-> [k \in ParamSet |-> [v |-> IF InSeq(k, L.cfg) THEN CfgVal(k) ELSE 0, err |-> "none"]],
             hw |-> [k \in ParamSet |-> HwInit(k)],
-            mode |-> [f \in Fns(L) |-> "ok"],
+            \* im: the fault modes the hardware functions are in when the modules start (pairs <<fn, mode>>)
+            mode |-> [f \in Fns(L) |-> IF \E i \in DOMAIN L.im : L.im[i][1] = f
+                                        THEN L.im[CHOOSE i \in DOMAIN L.im : L.im[i][1] = f][2] ELSE "ok"],
             wd |-> Range(L.cfg),
             calls |-> <<>>, upd |-> <<>>, touched |-> {}]
 Clear(S) == [S EXCEPT !.calls = <<>>, !.upd = <<>>, !.touched = {}]
@@ -200,6 +205,7 @@ RunCR(S, d) ==
     LET S0 == CallRec(S, d.fn, "*", <<>>)
         md == S.mode[d.fn] IN
     CASE md = "secop" -> [s |-> S0, exc |-> "hw", ret |-> 0]
+      [] md = "comm"  -> [s |-> S0, exc |-> "comm", ret |-> 0]
       [] md = "plain" -> [s |-> S0, exc |-> "int", ret |-> 0]
       [] md = "part"  -> [s |-> IF d.keys[1] \in ParamSet THEN Ann(S0, d.keys[1], S0.hw[d.keys[1]]) ELSE S0,
                           exc |-> "hw", ret |-> 0]
@@ -212,6 +218,7 @@ ReadR(S, d, k) ==
         md == S.mode[d.fn]
         v == S.hw[k] IN
     CASE md = "secop" -> Fail(AnnErr(S0, k, "hw"), "hw")
+      [] md = "comm" -> Fail(AnnErr(S0, k, "comm"), "comm")
       [] md = "plain" -> Fail(AnnErr(S0, k, "int"), "int")
       [] md = "ok" -> IF v = X THEN Fail(Ann(S0, k, v), "type") ELSE Ok(Ann(Ann(S0, k, v), k, v), v)
 ReadPR(S, d, k) ==
@@ -220,6 +227,7 @@ ReadPR(S, d, k) ==
         v == S.hw[k]
         S1 == Ann(S0, k, v) IN
     CASE md = "secop" -> Fail(AnnErr(S0, k, "hw"), "hw")
+      [] md = "comm" -> Fail(AnnErr(S0, k, "comm"), "comm")
       [] md = "ok" -> IF v = X THEN Fail(S1, "type") ELSE Ok(S1, v)
       \* "the setter is triggered already": the method assigns and returns Done
       [] md = "done" -> Ok(S1, S1.cache[k].v)
@@ -249,6 +257,7 @@ WriteW(S, d, k, v, D) ==
         S1 == [S0 EXCEPT !.hw[k] = Clamp(v)]
         r == Clamp(v) IN
     CASE md = "secop" -> Fail(S0, "hw")
+      [] md = "comm" -> Fail(S0, "comm")
       [] md = "plain" -> Fail(S0, "int")
       [] md = "ok" -> Ok(Ann(Ann(S1, k, r), k, r), r)
       \* fn returns nothing: the value asked for is taken
@@ -277,6 +286,7 @@ WriteCW(L, S, d, k, v) ==
         S3 == [q.s EXCEPT !.wd = @ \ {k}]
         v2 == S3.cache[k].v IN
     CASE md = "secop" -> Fail(S0, "hw")
+      [] md = "comm" -> Fail(S0, "comm")
       [] md = "plain" -> Fail(S0, "int")
       [] md \in {"ok", "ret"} ->
            IF q.exc # "none" THEN Fail(q.s, q.exc)
@@ -296,14 +306,18 @@ InitWrites(L, c, S, i, D) ==
     ELSE LET k == Params[i] IN
          InitWrites(L, c, IF k \in S.wd THEN WriteVia(L, c, [S EXCEPT !.wd = @ \ {k}], k, CfgVal(k), D).s ELSE S, i + 1, D)
 
-(* one round over the polled read methods in parameter order; fresh = TRUE: skip what was refreshed in this round *)
+(* one round over the polled read methods in parameter order.  fresh = TRUE (slow round): a parameter refreshed
+   earlier in this round is skipped.  fresh = FALSE (first round after start-up): every polled method is called, but
+   a communication failure that is reported for the first time ends the round (modulebase.py:766-781) *)
 RECURSIVE PollFrom(_, _, _, _, _, _)
 PollFrom(L, c, S, i, fresh, D) ==
     IF i > Len(Params) THEN S
-    ELSE LET k == Params[i] IN
-         PollFrom(L, c, IF PollFlag(L, c, k, D) /\ ~(fresh /\ k \in S.touched /\ "X_NoFreshSkip" \notin D)
-                        THEN ReadVia(L, c, S, k, D).s ELSE S,
-                  i + 1, fresh, D)
+    ELSE LET k == Params[i]
+             due == PollFlag(L, c, k, D) /\ ~(fresh /\ k \in S.touched /\ "X_NoFreshSkip" \notin D)
+             q == ReadVia(L, c, S, k, D) IN
+         IF ~due THEN PollFrom(L, c, S, i + 1, fresh, D)
+         ELSE IF ~fresh /\ ~q.r.ok /\ q.r.e = "comm" /\ S.cache[k].err # "comm" THEN q.s
+         ELSE PollFrom(L, c, q.s, i + 1, fresh, D)
 
 (* ------------------------------------------------------------------ actions *)
 Init == /\ lay = NoLay /\ phase = "undef" /\ pending = {} /\ st = [m \in Mods |-> NewS(NoLay)]
@@ -335,11 +349,11 @@ Step(m, act, key, q) ==
     /\ last' = [act |-> act, mod |-> m, key |-> key, verdict |-> "", res |-> q.r]
     /\ UNCHANGED <<lay, phase, pending>>
 
-ModesOf(kind) == CASE kind = "R" -> {"ok", "secop", "plain"}
-                   [] kind = "CR" -> {"ok", "secop", "plain", "ret", "part"}
-                   [] kind = "W" -> {"ok", "none", "secop", "plain"}
-                   [] kind = "CW" -> {"ok", "secop", "plain", "ret"}
-                   [] kind = "PR" -> {"ok", "secop", "done"}
+ModesOf(kind) == CASE kind = "R" -> {"ok", "secop", "comm", "plain"}
+                   [] kind = "CR" -> {"ok", "secop", "comm", "plain", "ret", "part"}
+                   [] kind = "W" -> {"ok", "none", "secop", "comm", "plain"}
+                   [] kind = "CW" -> {"ok", "secop", "comm", "plain", "ret"}
+                   [] kind = "PR" -> {"ok", "secop", "comm", "done"}
                    [] kind = "PW" -> {"ok", "none", "secop", "done"}
                    [] OTHER -> {}
 
@@ -368,8 +382,10 @@ Outcome(m, a, D) ==
       \* environment: the hardware value changes, a hardware function starts / stops failing
       [] a.act = "hwset" -> [s |-> [S EXCEPT !.hw[a.key] = a.val], r |-> NoRes]
       [] a.act = "setmode" -> [s |-> [S EXCEPT !.mode[a.fn] = a.mode], r |-> NoRes]
+(* requests are served as soon as the modules exist (before the poll threads are started); poll rounds need the thread *)
 Act(m, a, D) ==
-    /\ phase = "run" /\ Guard(m, a)
+    /\ phase = "run" \/ (phase = "new" /\ a.act # "poll")
+    /\ Guard(m, a)
     /\ Step(m, a.act, IF a.act \in {"callcommon", "setmode"} THEN a.fn ELSE a.key, Outcome(m, a, D))
 
 Read(m, k, D) == Act(m, In("read", k, 0, "", ""), D)
@@ -397,7 +413,7 @@ CallsOf(S, fn) == Cardinality({i \in DOMAIN S.calls : S.calls[i].fn = fn})
 Acting == last.mod
 RdProv(m, k) == Provider(lay, ClassOf(m), "read", k)
 WrProv(m, k) == Provider(lay, ClassOf(m), "write", k)
-Running == phase = "run" /\ Acting \in Mods
+Running == phase \in {"new", "run"} /\ Acting \in Mods
 NCalls(S) == Len(S.calls)
 
 TypeOK == /\ phase \in {"undef", "refused", "new", "run"}
